@@ -356,3 +356,86 @@ def c02(tier):
     ck.cov["rule"] = "every configuration the REAL expander accepts, all key/by functions expressing one key; laws evaluated on the real impls over all pairs and triples"
     ck.cov["exhaustive"] = True
     return ck.finish()
+
+
+# ------------------------------------------------------------------------------------------------
+# C17: derive_ex(Eq) is refused by rustc unless every compared component is Eq
+# ------------------------------------------------------------------------------------------------
+def c17(tier):
+    ck = dx.Check("C17", tier)
+    cfgs, st = mc_cfgs(ck, tier, dsets="closed")
+    Dsets = (["Eq", "PartialEq"], ["Eq", "PartialEq", "Hash"])
+    items = []
+    for c in cfgs:
+        if c["D"] not in Dsets:
+            continue
+        for ty in ("eq", "noneq"):
+            for kty in ("eq", "noneq"):
+                anykey = any(c["c"][a]["sel"] == "key" for a in cf.ATTRS)
+                if kty == "noneq" and not anykey:
+                    continue
+                sub = lambda: cf.field(copy.deepcopy(c["c"]), ty=ty, kty=kty, dom=2)
+                Ps = [("struct_tuple_only", cf.mkP("struct", [{"shape": "tuple", "fields": [sub()]}])),
+                      ("enum_named_last", cf.mkP("enum", [{"shape": "unit", "fields": []},
+                                                           {"shape": "named", "fields": [cf.field(), sub()]}]))]
+                if tier == "thorough":
+                    Ps.append(("struct_named_first", cf.mkP("struct", [{"shape": "named", "fields": [sub(), cf.field(ty="eq")]}])))
+                present = [a for a in cf.ATTRS if c["c"][a] != cf.NOOPT]
+                ent = "any" if all(a in c["rec"] for a in present) else "derive"
+                for stag, P in Ps:
+                    items.append((P, c["D"], ent, stag, c["c"]))
+    # in-process: keep what derive_ex itself accepts (its own refusals are C05's subject), dedupe on impl tokens
+    reqs = []
+    for (P, D, entry, stag, c) in items:
+        src = cf.item_src(P, D, "T", "distinct", "attr")
+        reqs.append({"k": "expand", "id": len(reqs), "entry": "attr", "attr": ", ".join(D), "item": src[src.index("]") + 1:]})
+    resps = dx.expand(reqs)
+    classes = {}
+    for i, (r, it) in enumerate(zip(resps, items)):
+        cl, info = cf.classes_of(r, it[1], "attr")
+        if all(cl[t] == "impl" for t in it[1]) and info["whole"] == "ok":
+            # field types are part of the program but not of the impl tokens: key on the re-emitted item too
+            classes.setdefault(cf.impl_key(r) + r["items"][0]["hash"] + it[3] + it[2], []).append(i)
+    reps = sorted((ms[0], ms) for ms in classes.values())
+    wd = os.path.join(dx.WORK, "c17-%d" % os.getpid())
+
+    def comp(rep_ms):
+        rep, ms = rep_ms
+        P, D, entry, stag, c = items[rep]
+        ent = "derive" if entry == "derive" else ("attr" if rep % 2 == 0 else "derive")
+        src = "#![allow(dead_code, unused)]\n" + cf.item_src(P, D, "T", "distinct", ent, for_rustc=True) + "\n"
+        ok, diags = dx.check_only("p%d" % rep, src, wd)
+        errs = [d for d in diags if d.get("level") == "error"]
+        eqerr = any((d.get("code") or {}).get("code") == "E0277" and "Eq" in (d.get("message", "") + json.dumps([c.get("message", "") for c in d.get("children", [])])) for d in errs)
+        return rep, ok, eqerr, dx.diag_summary(diags)[:3], src
+    out = dx.pmap(comp, reps)
+    import shutil
+    shutil.rmtree(wd, ignore_errors=True)
+    events, meta = [], []
+    for (rep, ok, eqerr, ds, src), (_, ms) in zip(out, reps):
+        for m in ms:
+            P, D, entry, stag, c = items[m]
+            events.append({"ev": "eqc", "P": P, "D": D, "rustc_ok": ok, "eq_bound_error": eqerr})
+            meta.append((m, ds, src))
+    dx.log("c17: %d items, %d accepted by derive_ex, %d distinct programs compiled (metadata-only)" % (len(items), len(events), len(reps)))
+    n, bad, jst = dx.tlc_judge("Trace_Cmp", "Trace_Cmp.cfg", events, "c17", chunk=max(300, -(-len(events) // 12)))
+    ck.add_judge(n, jst)
+    for i in bad:
+        m, ds, src = meta[i]
+        P, D, entry, stag, c = items[m]
+        f = [f for v in P["variants"] for f in v["fields"] if f["dom"] == 2 and f["cmp"] == c][0] if False else None
+        sub = [f for v in P["variants"] for f in v["fields"]][-1] if stag != "struct_named_first" else P["variants"][0]["fields"][0]
+        sig = {"kind": "eq_refusal", "cfg": sig_cfg(c), "D": "+".join(D), "ty": sub["ty"], "kty": sub["kty"], "rustc_ok": events[i]["rustc_ok"], "shape": stag}
+        ck.violation(sig, {"what": "rustc accept/reject of derive_ex(Eq) differs from EqCompiles", "source": src, "diagnostics": ds, "observed": {k: v for k, v in events[i].items() if k != "P"}})
+    acc = sum(1 for e in events if e["rustc_ok"])
+    ck.notes["runtime"] = {"items": len(items), "events": len(events), "programs": len(reps), "rustc_accepts": acc, "rustc_rejects": len(events) - acc}
+    if events and (acc == 0 or acc == len(events)):
+        raise dx.ToolError("vacuous C17 run: %s" % ck.notes["runtime"])
+    for i in (0, len(events) // 2, len(events) - 1):
+        ck.sample({"source": meta[i][2][:400], "rustc_ok": events[i]["rustc_ok"], "eq_bound_error": events[i]["eq_bound_error"]})
+    ck.cov["evaluations"] = len(events)
+    ck.cov["distinct_nontrivial"] = len(reps)
+    ck.cov["rule"] = "every matrix configuration derive_ex accepts for {Eq,PartialEq} and {Eq,PartialEq,Hash} x field type Eq/PartialEq-only x key type Eq/PartialEq-only x shapes; distinct = distinct programs compiled"
+    ck.cov["exhaustive"] = True
+    ck.assumptions.append("decisive oracle for 'compiles' is rustc (metadata-only build with the genuine proc-macro)")
+    return ck.finish()
